@@ -32,7 +32,7 @@ def build_cases(seed, n):
                            {"avro.schema": json.dumps({"type": "record", "name": "Stale", "fields": [{"name": "zz", "type": "string"}]}), "k": "v"},
                            {"avro.codec": "snappy", "avro.schema": "\"string\""}])
         sync = rnd.choice([b"", bytes(range(16)), bytes([rnd.getrandbits(8) for _ in range(16)])])
-        kind = rnd.choice(["bytesio", "bytesio", "file", "writeonly"])
+        kind = rnd.choice(["bytesio", "bytesio", "file", "writeonly", "incremental"])
         parsed = rnd.random() < 0.5
         interval = rnd.choice([1, 2, 7, 16, 100, 16000, "fill1", "fill2", "fill1-1", "beyond"])
         cases.append(dict(schema=s, records=recs, codec=codec, level=level, meta=meta, sync=sync, kind=kind,
@@ -56,6 +56,19 @@ def resolve_interval(c, sizes):
     return 16000
 
 
+class _Bad:
+    """conforms to no schema"""
+
+
+def spoil(rec, s):
+    """a datum that is rejected only AFTER part of it has been encoded: `rec` with its last field / item replaced"""
+    if isinstance(s, dict) and s.get("type") == "record" and isinstance(rec, dict) and len(s["fields"]) >= 2:
+        return dict(rec, **{s["fields"][-1]["name"]: _Bad()})
+    if isinstance(s, dict) and s.get("type") == "array" and isinstance(rec, list) and rec:
+        return list(rec) + [_Bad()]
+    return None
+
+
 def write_impl(c, interval):
     s = c["schema"]
     ps = fastavro.parse_schema(json.loads(json.dumps(s))) if c["parsed"] else json.loads(json.dumps(s))
@@ -68,6 +81,34 @@ def write_impl(c, interval):
     if c["kind"] == "bytesio":
         fo = io.BytesIO()
         fastavro.writer(fo, ps, c["records"], **kw)
+        data = fo.getvalue()
+    elif c["kind"] == "incremental":
+        # the incremental API, the caller skipping data the writer refuses: the file holds the accepted records only
+        from fastavro.write import Writer
+        fo = io.BytesIO()
+        kw2 = dict(kw)
+        if "codec_compression_level" in kw2:
+            kw2["compression_level"] = kw2.pop("codec_compression_level")
+        w = Writer(fo, ps, **kw2)
+        rr = random.Random(len(c["records"]) * 31 + interval)
+        for rec in c["records"]:
+            bad = spoil(rec, s) if rr.random() < 0.5 else None
+            if bad is not None:
+                # only data the schemaless writer refuses too (a "null" field takes any value, for one)
+                try:
+                    fastavro.schemaless_writer(io.BytesIO(), ps, bad)
+                    bad = None
+                except Exception:  # noqa
+                    pass
+            if bad is not None:
+                try:
+                    w.write(bad)
+                except Exception:  # noqa
+                    pass
+                else:
+                    raise MachineryError("Writer.write accepted a datum that schemaless_writer refuses")
+            w.write(rec)
+        w.flush()
         data = fo.getvalue()
     elif c["kind"] == "writeonly":
         fo = WriteOnly()
@@ -94,7 +135,7 @@ def run(tier, seed):
     run = Run("C04", tier, seed)
     run.rule = ("schemas of every top-level kind x record lists (empty, one, many, zero-byte records) x codec "
                 "{null,deflate,bzip2,xz} x sync_interval (1 .. beyond total, exact-fill values) x level x metadata x "
-                "raw/parsed schema x stream kind (BytesIO, real file, write-only non-seekable output, read-only sequential "
+                "raw/parsed schema x stream kind (BytesIO, real file, write-only non-seekable output, incremental Writer with refused data in between, read-only sequential "
                 "input); non-trivial = at least one record and depth >= 2 or >= 2 blocks")
     run.lean(TARGETS, THEOREMS)
     cases = build_cases(seed, scale(tier, 260))
